@@ -12,6 +12,11 @@
 (***************************************************************************)
 EXTENDS Integers, Sequences, FiniteSets, Rat
 
+\* SignRule selects how a run of adjacent sign characters is resolved: "parity" (the code, and the only rule that
+\* agrees with arithmetic) or the design error "anyminus" (a run is a minus as soon as it contains one: right for every
+\* run of one or two signs except "--", wrong for every even number of minuses), which TLC must refute against RefC.
+CONSTANT SignRule
+
 CTok(k, s) == [k |-> k, s |-> s, cs |-> <<>>, q |-> Zero, isq |-> FALSE]
 CVal(s, q) == [k |-> "value", s |-> s, cs |-> <<>>, q |-> q, isq |-> TRUE]
 COp(cs) == [k |-> "op", s |-> "", cs |-> cs, q |-> Zero, isq |-> FALSE]
@@ -36,7 +41,7 @@ CollapseSigns(cs) ==
   ELSE IF Head(cs) \notin Signs THEN <<Head(cs)>> \o CollapseSigns(Tail(cs))
   ELSE LET n == CHOOSE k \in 1..Len(cs) : (\A i \in 1..k : cs[i] \in Signs) /\ (k = Len(cs) \/ cs[k + 1] \notin Signs)
            minus == Cardinality({i \in 1..n : cs[i] = "-"})
-       IN <<IF minus % 2 = 1 THEN "-" ELSE "+">> \o CollapseSigns(SubSeq(cs, n + 1, Len(cs)))
+       IN <<IF (IF SignRule = "anyminus" THEN minus > 0 ELSE minus % 2 = 1) THEN "-" ELSE "+">> \o CollapseSigns(SubSeq(cs, n + 1, Len(cs)))
 ResolveRun(cs) == IF Len(cs) = 1 THEN cs ELSE CollapseSigns(cs)
 
 (* the "," operator accepts a context in which every stacked OPERATOR of precedence <= -200 is a "," *)
@@ -116,7 +121,11 @@ ArE(f, i, minp, pt) ==
   IF i > Len(f) THEN Bad(i)
   ELSE LET t == f[i] IN
        IF t.k = "op" /\ Len(t.cs) = 1 /\ t.cs[1] \in {"+", "-"}
-       THEN IF 100 < minp THEN Bad(i)
+       \* a sign may prefix an operand at the start, after "(", "=", "," and after a binary or another prefix sign
+       \* ("x - -y", "--x": the signs are applied one after the other, innermost first - no notion of a "run" here).
+       \* After "*" or "/" (minp = 201) it stays outside the reference: "x / -2 * 3" has two defensible readings and
+       \* the code rejects such strings anyway (interpretation 9).
+       THEN IF 101 < minp THEN Bad(i)
             ELSE LET a == ArE(f, i + 1, 101, pt) IN
                  IF ~a.ok THEN a ELSE ArLoop(f, [a EXCEPT !.v = IF t.cs[1] = "-" THEN RNeg(a.v) ELSE a.v], a.i, minp, pt)
        ELSE IF t.k = "open"
@@ -166,15 +175,22 @@ PointUnit(names, j) == [x \in {names[i] : i \in DOMAIN names} |-> IF x = names[j
 \* a generic point used only to decide grammaticality/linearity without hitting a zero divisor by accident
 PointGeneric(names) == [x \in {names[i] : i \in DOMAIN names} |-> <<7 + 4 * (CHOOSE i \in DOMAIN names : names[i] = x), 3>>]
 
+\* The reference reads the written characters: an operator token that carries a run of adjacent characters ("=-", "--",
+\* ",+-") is the sequence of its characters.  (Before, a run was simply ungrammatical for the reference, so the rows the
+\* machine derives for "x - -y" or "x = --2" were compared with nothing.)
+RECURSIVE Flat(_)
+Flat(toks) == IF toks = <<>> THEN <<>>
+              ELSE LET t == Head(toks) IN (IF t.k = "op" THEN [i \in DOMAIN t.cs |-> COp(<<t.cs[i]>>)] ELSE <<t>>) \o Flat(Tail(toks))
+
 RefC(toks, names) ==       \* [gram : grammatical and defined, lin : linear]
-  LET r == SpecRows(toks, 1, PointGeneric(names)) IN [gram |-> toks = <<>> \/ r.ok, lin |-> r.lin]
+  LET r == SpecRows(Flat(toks), 1, PointGeneric(names)) IN [gram |-> toks = <<>> \/ r.ok, lin |-> r.lin]
 
 \* the affine identity on the n+1 affinely independent points 0, e_1 .. e_n
 AffineAgrees(rows, toks, names) ==
   toks # <<>> =>
   \A j \in 0..Len(names) :
     LET pt == IF j = 0 THEN PointZero(names) ELSE PointUnit(names, j)
-        r == SpecRows(toks, 1, pt)
+        r == SpecRows(Flat(toks), 1, pt)
         x == [i \in DOMAIN names |-> pt[names[i]]]
     IN r.ok => /\ Len(r.vals) = Len(rows)
                /\ \A q \in DOMAIN rows : RSub(Dot(rows[q].coef, x), rows[q].b) = r.vals[q]
